@@ -2,7 +2,8 @@
 from .. import sexp, parsegen, spangen, lexsim, peg
 from .gbase import GProp, pfields, mk_case, run_result
 
-WRAPS = ['none', 'maybe', 'unrec', 'raw', 'reqifF', 'implies', 'filterwith', 'unfiltered', 'stabilize', 'condimplies', 'ctxpush']
+WRAPS = ['none', 'maybe', 'unrec', 'raw', 'reqifF', 'implies', 'filterwith', 'unfiltered', 'stabilize', 'condimplies', 'ctxpush',
+         'reqifT', 'condT', 'condF', 'antecedent', 'consequent', 'condimpliesT', 'filterkeep', 'impliesfail']
 
 def wrap(w, q, r):
     if w == 'none': return q
@@ -16,6 +17,14 @@ def wrap(w, q, r):
     if w == 'stabilize': return ['stabilize', q]
     if w == 'condimplies': return ['condimplies', q, 'never', ['one', 'C']]
     if w == 'ctxpush': return ['ctxpush', 77, q]
+    if w == 'reqifT': return ['reqif', 'T', q]
+    if w == 'condT': return ['cond', 'T', q]
+    if w == 'condF': return ['cond', 'F', q]
+    if w == 'antecedent': return ['antecedent', q, ['maybe', ['one', 'C']]]
+    if w == 'consequent': return ['consequent', q, ['maybe', ['one', 'C']]]
+    if w == 'condimpliesT': return ['condimplies', q, r.choice(['always', ['istok', 'A']]), ['maybe', ['one', 'C']]]
+    if w == 'filterkeep': return ['filterwith', r.choice([['keep', 'A', 'B', 'C', 'Semi', 'Comma'], ['drop', 'Ws', 'C'], ['keep', 'A', 'B', 'Ws', 'Semi']]), q]
+    if w == 'impliesfail': return ['implies', q, ['one', 'C']]          # the right side can fail after the left succeeded
     raise ValueError(w)
 
 def probe_entry(n, pushed):
@@ -29,7 +38,7 @@ class C09(GProp):
     id = 'C09'
     files = ['tephra-combinator/src/control.rs', 'tephra-combinator/src/alt.rs', 'tephra/src/context.rs', 'tephra-combinator/src/list.rs']
     rule = ('seeded random sequences q1; probe; q2; probe; ...; P with each qi a succeeding or failing sub-parser optionally wrapped in '
-            'maybe / unrecoverable / raw / require_if / implies / cond_implies / filter_with / unfiltered / stabilize / a user '
+            'maybe / unrecoverable / raw / require_if (both ways) / cond / implies / antecedent / consequent / cond_implies (all predicate forms) / filter_with (drop and keep filters) / unfiltered / stabilize / a user '
             'context push (and a family with a recover state carried into a stabilize that gives up without progress under an alternative or an enclosing recovery), P a recovering parser, 0-3 transforms pushed on the context, on random texts; after every wrapper a '
             'probe error is sent through the enclosing context: it must reach the sink carrying exactly the pushed transforms, the '
             'returned lexer must have the filter it started with, and P\'s value/remaining stream/diagnostics must be those of the '
@@ -44,7 +53,11 @@ class C09(GProp):
             k = 1 + r.below(4)
             parts = []
             for j in range(k):
-                q = r.choice([['one', 'A'], ['one', 'B'], ['seq', 'A', 'B'], ['any', 'A', 'B'], ['maybe', ['one', 'A']], ['both', ['one', 'A'], ['one', 'A']]])
+                q = r.choice([['one', 'A'], ['one', 'B'], ['seq', 'A', 'B'], ['any', 'A', 'B'], ['maybe', ['one', 'A']], ['both', ['one', 'A'], ['one', 'A']],
+                              # a wrapped sub-parser that is itself recovering (under maybe / unrec / an antecedent it runs without the sink)
+                              ['recoverdef', ['before', 'Semi'], ['one', 'A']], ['recover', ['before', 'Comma'], ['seq', 'A', 'B']],
+                              # a wrapper entered on a sub-lexer
+                              ['sub', ['one', 'A']]])
                 wq = wrap(r.choice(WRAPS), q, r)
                 k2 = r.below(5)
                 # a failing wrapped parser absorbed by an enclosing optional / alternative: its failure path must not leak either
